@@ -120,6 +120,18 @@ int nanosleep(const struct timespec* req, struct timespec* rem) {
   }
   return (int) syscall(SYS_nanosleep, req, rem);
 }
+/* attributes libuv hands to the *_init calls */
+static int last_rwlock_kind = -2, last_mutex_type = -2;
+EARLY int pthread_rwlock_init(pthread_rwlock_t* l, const pthread_rwlockattr_t* a) {
+  int k = -1; if (a) pthread_rwlockattr_getkind_np(a, &k);
+  last_rwlock_kind = k;
+  REAL(int, pthread_rwlock_init, pthread_rwlock_t*, const pthread_rwlockattr_t*) return real(l, a);
+}
+EARLY int pthread_mutex_init(pthread_mutex_t* m, const pthread_mutexattr_t* a) {
+  int t = -1; if (a) pthread_mutexattr_gettype(a, &t);
+  last_mutex_type = t;
+  REAL(int, pthread_mutex_init, pthread_mutex_t*, const pthread_mutexattr_t*) return real(m, a);
+}
 int pthread_condattr_setclock(pthread_condattr_t* a, clockid_t c) {
   cond_clock = (int) c;
   REAL(int, pthread_condattr_setclock, pthread_condattr_t*, clockid_t) return real(a, c);
@@ -217,6 +229,11 @@ int main(void) {
       printf("deadline %" PRIu64 " %" PRIu64 " clk %d condclk %d ", (uint64_t) S.abstime.tv_sec,
              (uint64_t) S.abstime.tv_nsec, S.clk_asked, cond_clock);
       print_out(ab, rc); printf("\n");
+    } else if (!strcmp(w[0], "initattr") && n == 2) {
+      if (!strcmp(w[1], "rwlock")) { uv_rwlock_t x; last_rwlock_kind = -2; if (uv_rwlock_init(&x)) { printf("init-failed\n"); continue; } uv_rwlock_destroy(&x); printf("rwlock-kind %d\n", last_rwlock_kind); }
+      else if (!strcmp(w[1], "mutex")) { uv_mutex_t x; last_mutex_type = -2; if (uv_mutex_init(&x)) { printf("init-failed\n"); continue; } uv_mutex_destroy(&x); printf("mutex-type %d\n", last_mutex_type); }
+      else if (!strcmp(w[1], "rmutex")) { uv_mutex_t x; last_mutex_type = -2; if (uv_mutex_init_recursive(&x)) { printf("init-failed\n"); continue; } uv_mutex_destroy(&x); printf("mutex-type %d\n", last_mutex_type); }
+      else printf("bad-op\n");
     } else if (!strcmp(w[0], "barrier") && n == 2 && is_int(w[1])) {
       S.code = atoi(w[1]);
       ab = GUARDED(rc = uv_barrier_wait(&bar));
@@ -380,6 +397,39 @@ static void t_rwlock(void) {
   int fr_wr = uv_rwlock_trywrlock(&RW); if (fr_wr == 0) uv_rwlock_wrunlock(&RW);
   printf("rwlock-try rdheld_tryrd %d rdheld_trywr %d wrheld_tryrd %d wrheld_trywr %d free_trywr %d\n", rd_rd, rd_wr, wr_rd, wr_wr, fr_wr);
   uv_sem_destroy(&held_sem); uv_sem_destroy(&release_sem); uv_rwlock_destroy(&RW);
+}
+
+/* ---- a waiting writer must not keep further readers out (only a writer HOLDING the lock excludes) */
+static atomic_int ww_started, ww_in, wb_in, wb_try; static uv_sem_t wb_release;
+static void ww_writer(void* a) { (void) a; atomic_store(&ww_started, 1); uv_rwlock_wrlock(&RW); atomic_store(&ww_in, 1); uv_rwlock_wrunlock(&RW); }
+static void ww_reader(void* a) {
+  (void) a; int r = uv_rwlock_tryrdlock(&RW); atomic_store(&wb_try, r); if (r == 0) uv_rwlock_rdunlock(&RW);
+  uv_rwlock_rdlock(&RW); atomic_store(&wb_in, 1); uv_sem_wait(&wb_release); uv_rwlock_rdunlock(&RW);
+}
+static void t_rwlock_wwait(void) {
+  int same_refused = 0, other_refused = 0, other_blocked = 0, writer_in = 0;
+  for (int r = 0; r < ROUNDS; r++) {
+    uv_thread_t w, b; uv_rwlock_init(&RW); uv_sem_init(&wb_release, 0);
+    atomic_store(&ww_started, 0); atomic_store(&ww_in, 0); atomic_store(&wb_in, 0); atomic_store(&wb_try, 12345);
+    uv_rwlock_rdlock(&RW);                                   /* reader A = this thread */
+    uv_thread_create(&w, ww_writer, NULL);
+    while (!atomic_load(&ww_started)) sched_yield();
+    uv_sleep(15);                                            /* writer parked in uv_rwlock_wrlock */
+    int again = uv_rwlock_tryrdlock(&RW);                    /* A nests its read lock */
+    if (again != 0) same_refused++;
+    uv_thread_create(&b, ww_reader, NULL);                   /* reader B arrives */
+    for (int i = 0; i < 150 && !atomic_load(&wb_in); i++) uv_sleep(2);
+    if (!atomic_load(&wb_in)) other_blocked++;
+    if (atomic_load(&wb_try) != 0) other_refused++;
+    if (atomic_load(&ww_in)) writer_in++;                    /* writer inside while A still reads */
+    if (again == 0) uv_rwlock_rdunlock(&RW);
+    uv_rwlock_rdunlock(&RW);
+    uv_sem_post(&wb_release);
+    uv_thread_join(&b); uv_thread_join(&w);
+    uv_sem_destroy(&wb_release); uv_rwlock_destroy(&RW);
+  }
+  printf("rwlock-wwait rounds %d same_thread_tryrd_refused %d other_tryrd_refused %d other_rdlock_blocked %d writer_in_while_read_held %d\n",
+         ROUNDS, same_refused, other_refused, other_blocked, writer_in);
 }
 
 /* ---- semaphore */
@@ -650,6 +700,7 @@ int main(void) {
       if (!strcmp(w[1], "mutex")) t_mutex(0);
       else if (!strcmp(w[1], "rmutex")) t_mutex(1);
       else if (!strcmp(w[1], "rwlock")) t_rwlock();
+      else if (!strcmp(w[1], "rwlock-wwait")) t_rwlock_wwait();
       else if (!strcmp(w[1], "sem")) t_sem(1 + NT / 3);
       else if (!strcmp(w[1], "barrier")) t_barrier(NT);
       else if (!strcmp(w[1], "once")) t_once();
